@@ -403,6 +403,11 @@ def expected_effect(op, s):
     return [a[::-1] for a in data]
 
 
+def unknown_names(op):
+    """an `rtas` op whose dictionary names a coordinate system or coordinate type that does not exist"""
+    return op[2] not in (None, 'cartesian', 'polar') or op[3] is not None
+
+
 def oracle(steps):
     bad = []
     for st in steps:
@@ -421,7 +426,7 @@ def oracle(steps):
             if opname == 'new':
                 bad.append(('new-raises', 'constructing (or reading the points of) a %s %s grid with argument forms %r / int=%r raised %s' % (
                     op[1]['sys'], op[1]['kind'], op[1].get('forms'), op[1].get('int'), status[4:])))
-            elif opname == 'rtas' and status == 'err:key' and (op[2] not in (None, 'cartesian', 'polar') or op[3] is not None):
+            elif opname == 'rtas' and status == 'err:key' and unknown_names(op):
                 pass        # from_dict of a dictionary with an unknown name: KeyError is the specified answer
             elif not undefined_weights:
                 bad.append(('op-raises %s' % opname, '%s raised %s on a %s %s grid' % (
@@ -491,7 +496,10 @@ def oracle(steps):
                     op[2], obs['eq'][op[1]][n - 1], 'are all unchanged (shift absorbed)' if absorbed else 'changed')))
             elif absorbed and obs['hash'][op[1]] != obs['hash'][n - 1]:
                 bad.append(('float-shift-identity', 'an absorbed shift changed the hash'))
-        if opname == 'rtas':
+        if opname == 'rtas' and unknown_names(op):
+            bad.append(('from-dict-unknown-name', 'from_dict accepted a dictionary with coordinate_system=%r, type=%r and built a %s %s grid' % (
+                op[2], op[3], snaps[n - 1]['sys'], snaps[n - 1]['kind'])))
+        elif opname == 'rtas':
             a, b = snaps[n - 1], snaps[op[1]]
             if (a['sys'], a['kind'], a['data'], a['w']) != (op[2][0], b['kind'], b['data'], b['w']):
                 bad.append(('from-dict-names', 'from_dict of the dictionary of a %s %s grid with coordinate_system=%r is a %s %s grid with %s' % (
@@ -719,6 +727,11 @@ def run(ctx):
             op = st['op']
             lines += model_op_lines(op, mpool)
             m = {'op': len(lines) - 1}
+            if op[0] == 'rtas' and unknown_names(op) and st['status'] == 'ok':
+                # the implementation built a grid the model does not have: only the status is compared (and differs)
+                m['n'] = 0
+                marks.append(m)
+                break
             nlive = len(st['obs']['snaps'])
             m['show'] = len(lines)
             lines += ['C10 show %d' % k for k in range(nlive)]
